@@ -198,3 +198,8 @@ package respondent
 //@   before call:SetPrivate#1 assert p.p == pp && p.s == s
 //@
 // ---- end generated AddPipe contracts ----
+// ---- generated Info contracts (tools/gen_info_contracts.py) ----
+//@ func (*socket).Info
+//@   ensures result.Self == 99 && result.Peer == 98 && result.SelfName == "respondent" && result.PeerName == "surveyor"
+//@
+// ---- end generated Info contracts ----
